@@ -19,7 +19,14 @@ Proof.
   fold d in H. rewrite Hl in H. exact H.
 Qed.
 
+(* conversely, a history that contains no calibration reports no definition at all: neither Monte Carlo nor storage can invent one *)
+Theorem C17_no_calibration_no_definition (V S : Type) (ser : V -> S) (deser : S -> V) (file : S -> S) ops :
+  last_calibrate V ops None = None ->
+  let d := run V S ser deser file {| a_sections := None; a_matching := None; c_trans_att := None |} ops in
+  sections_of V S deser d = None /\ matching_of V S deser d = None /\ c_trans_att V S d = None.
+Proof. intros Hl. exact (no_calibration_no_definition V S ser deser file ops {| a_sections := None; a_matching := None; c_trans_att := None |} eq_refl eq_refl eq_refl Hl). Qed.
+
 Example C17_ex : last_calibrate nat [Calibrate nat 1 2 3; MonteCarlo nat; StoreLoad nat; Calibrate nat 4 5 6; StoreLoad nat] None = Some (4, 5, 6).
 Proof. reflexivity. Qed.
 
-Print Assumptions C17_definitions_travel.
+Print Assumptions C17_definitions_travel. Print Assumptions C17_no_calibration_no_definition.
